@@ -102,10 +102,13 @@ struct C19 : Profile {
     std::string body = print_program(p.ast);
     if (body.compare(0, 11, "import vf;\n") == 0) body = body.substr(11);
     { size_t q = body.find("v = vf();\n"); if (q != std::string::npos) body.erase(q, 10); }
+    // names that merely begin with a word of the interactive command set are ordinary variables
+    { Rng nr(subseed(runseed(vseed, runno), "names")); static const char* NM[] = {"running", "helper", "listing", "loaded", "saved", "cleared", "exitcode", "described", "dumped", "copyrighted", "licensed", "runs", "helps", "exits", "loads"};
+      int nn = (int)nr.weighted({3, 2, 1}); for (int i = 0; i < nn; ++i) { std::string n = NM[nr.below(15)]; text += n + " = " + std::to_string(nr.range(1, 99)) + ";\nprint \"" + n + "=\" " + n + ";\n"; } }
     text += body;
     if (mode != "interactive") {
-      static const char* RET[] = {"", "", "return i0 + 1;\n", "return s0 + \"!\";\n", "return b0;\n", "return 2.5;\n", "return tup(1, \"x\", 2.5);\n", "return t0;\n", "return null;\n", "return int();\n", "return str();\n", "return;\n"};
-      text += RET[r.below(12)];
+      static const char* RET[] = {"", "", "return i0 + 1;\n", "return s0 + \"!\";\n", "return b0;\n", "return 2.5;\n", "return tup(1, \"x\", 2.5);\n", "return t0;\n", "return null;\n", "return int();\n", "return str();\n", "return;\n", "import vf;\nreturn vf(5);\n", "import vf;\nreturn tab(2, vf(6));\n", "import vf;\nov9 = vf(8);\nreturn ov9;\n"};
+      text += RET[r.below(15)];
       if (r.chance(0.25)) { std::string d; Rng dr(subseed(runseed(vseed, runno), "damage")); size_t nt = reflex(text).tokens.size(); text = damage_text(dr, text, (int)dr.weighted({3, 3, 2, 4, 2, 3, 1, 1, 1, 0}), dr.below(nt ? nt : 1), d); plan["damage"] = d; }
     }
     if (mode == "file" || mode == "out" || mode == "stdin") {
@@ -213,6 +216,9 @@ struct C19 : Profile {
         else if (expect_ok && !ref.err.empty() && cli_err.find(ref.err) == std::string::npos) fail("C19/stderr-differs", "'" + printable(cli_err, 200) + "' vs '" + printable(ref.err, 200) + "'");
       }
     }
+    // module objects created by the program (also a returned one) are released exactly once by the time the command ends
+    if (res.vclass.empty() && foreign.empty()) for (auto& o : VfHost::get().objects) if (o.destroyed != 1) { fail("C19/module-object-not-released-exactly-once", "vf object #" + std::to_string(o.oid) + " (tag " + std::to_string(o.tag) + ") destroyed " + std::to_string(o.destroyed) + " times when the command had ended"); break; }
+    if (!VfHost::get().objects.empty()) ++res.probes["programs_creating_module_objects"];
     res.trace_hash = ev.hash();
     return res;
   }
